@@ -401,6 +401,15 @@ def s3(tier):
                 for rcc in (True, False):
                     two.append(spec(fs2, cross(['A', 'B', 'W', 'V'], cr, cs, rcc), 'S3'))
     out += two
+    # a derived factor listed in the design BEFORE the derived factor it depends on
+    Wd = within('W', ['A', 'B'], fm0, same)
+    Vd = within('V', ['W', 'A'], dict(fm0, W=Wd), same)
+    TAd = window('TA', ['A'], fm0, 2, same, kind='transition', start=1)
+    Nd = window('N', ['TA'], dict(fm0, TA=TAd), 2, same, kind='window', start=None)
+    for fs, order in (([A, B, Wd, Vd], ['A', 'B', 'V', 'W']), ([A, B, Wd, Vd], ['V', 'W', 'A', 'B']), ([A, B, TAd, Nd], ['A', 'N', 'TA', 'B'])):
+        for cr in (['A', 'B'], ['A'], [order[0]] if order[0] in ('V',) else ['B']):
+            out.append(spec(fs, cross(order, cr, []), 'S3'))
+            out.append(spec(fs, cross(order, cr, [{'c': 'MinimumTrials', 'k': 5}]), 'S3'))
     for extra, top in cases:
         factors = [A, B] + extra
         fm = {f['name']: f for f in factors}
